@@ -1232,8 +1232,10 @@ class SCFGIO:
             elif isinstance(value, PythonBytecodeBlock):
                 blocks[key]["begin"] = value.begin
                 blocks[key]["end"] = value.end
-            edges[key] = sorted([i for i in value._jump_targets])
-            backedges[key] = sorted([i for i in value.backedges])
+            # Keep the order: the position of a jump target encodes the
+            # branch decision.
+            edges[key] = [i for i in value._jump_targets]
+            backedges[key] = [i for i in value.backedges]
 
         graph_dict = {"blocks": blocks, "edges": edges, "backedges": backedges}
 
